@@ -63,9 +63,9 @@ theorem val_append_single (B : ℕ) (l : List ℕ) (x : ℕ) : val B (l ++ [x]) 
   | nil => simp
   | cons y ys ih => simp only [List.cons_append, val_cons, ih, List.length_cons, pow_succ]; ring
 
+set_option maxHeartbeats 2000000 in
 /-- Exactness of one CIOS step: `B * A' = A + a*b + m*Mod` where `A = val res + B^N * carry`,
     provided the reduction factor kills the lowest limb. -/
-set_option maxHeartbeats 2000000 in
 theorem outer_spec (B inv b : ℕ) (a0 m0 r0 : ℕ) (as ms rs : List ℕ) (carry : ℕ) (hB : 0 < B)
     (h1 : as.length = rs.length) (h2 : ms.length = rs.length)
     (hm : (m0 * (((a0 * b + r0) % B * inv) % B) + (a0 * b + r0) % B) % B = 0) :
